@@ -306,3 +306,44 @@ def mask_nested_container(in_dict: bool, ss: bool, si: bool, vi: int, mi: int) -
         elif not sens or mask is None:
             hold("mask", leaf_m[key] == leaf_u[key], "leaf altered")
     return True
+
+
+@obligation(prop="C10", sites=("mask",), encodes=ENC, budget={"quick": 200, "thorough": 400},
+            what="history: the configuration is rendered once while a list of configurations is still EMPTY, the "
+                 "list is then filled in place (append / insert / += / slice; symbolic), and rendered again with a "
+                 "mask: sensitive item values are masked (also nested one level down)")
+def mask_after_inplace_fill(pre_render: int, fill: int, nested: bool, mi: int) -> bool:
+    """
+    pre: 0 <= pre_render <= 2 and 0 <= fill <= 3 and 0 <= mi <= 2
+    post: _
+    """
+    mask = ("", "*", "XX")[0]
+    for n, cand in enumerate(("", "*", "XX")):
+        if mi == n:
+            mask = cand
+    item = Schema()
+    item.token = StringField(sensitive=True, default="")
+    item.name = StringField(default="n")
+    schema = Schema()
+    owner = schema.grp if nested else schema
+    owner.items = ListField(item, default=lambda: [])
+    cfg = schema()
+    if pre_render == 1:
+        cfg.to_tree()
+    elif pre_render == 2:
+        cfg.to_tree(sensitive_mask="#")
+    lst = (cfg.grp if nested else cfg).items
+    new = {"token": "tok-SECRET", "name": "a"}
+    if fill == 0:
+        lst.append(new)
+    elif fill == 1:
+        lst.insert(0, new)
+    elif fill == 2:
+        lst += [new]
+    else:
+        lst[0:0] = [new]
+    tree = cfg.to_tree(sensitive_mask=mask)
+    leaf = (tree["grp"] if nested else tree)["items"][0]
+    hold("mask", leaf["token"] == _mask_value("tok-SECRET", mask) and leaf["name"] == "a",
+         lambda: "item rendered as %r after the list was filled in place" % (leaf,))
+    return True
